@@ -455,17 +455,19 @@ func classify(got, want, foreign []byte) string {
 // ---- labs ----
 
 type lab struct {
-	link   netlab.Link
-	inline bool
-	svc    *core.Service
-	rec    *netlab.Recorder
-	srv    *netlab.Server
-	cli    *core.Client
-	raw    *netlab.RawServer
+	link    netlab.Link
+	inline  bool
+	svc     *core.Service
+	rec     *netlab.Recorder
+	srv     *netlab.Server
+	cli     *core.Client
+	raw     *netlab.RawServer
+	timeout time.Duration
 }
 
 func (l *lab) open(timeout time.Duration) error {
 	l.close()
+	l.timeout = timeout
 	l.svc = core.NewService()
 	l.rec = &netlab.Recorder{Respond: ack}
 	l.svc.Use(l.rec.Handler)
@@ -499,6 +501,8 @@ type executor struct {
 	res      *result
 	seen     map[[20]byte]bool
 	nilResp  []byte
+	// (link|side) pairs with confirmed within-capacity delivery failures (see echoTry)
+	convicted map[string]int
 }
 
 func (x *executor) distinct(parts ...[]byte) {
@@ -539,14 +543,39 @@ func (x *executor) run(sc Scenario) {
 
 // ---- part 1: echo through real client and real server ----
 
+// echoTimeout is the client's time-out for an echo within the transport's capacity. On loopback an echo takes
+// milliseconds; a call that has not come back after this long is tried again on a fresh connection with
+// echoRetryTimeout before it counts as 'not delivered'.
+const (
+	echoTimeout          = 10 * time.Second
+	echoRetryTimeout     = 45 * time.Second
+	echoConvictedTimeout = 3 * time.Second
+)
+
 func (x *executor) echo(sc Scenario, link netlab.Link) {
-	timeout := 60 * time.Second
+	x.echoTry(sc, link, false)
+}
+
+func (x *executor) echoTry(sc Scenario, link netlab.Link, retry bool) {
+	timeout := echoTimeout
+	if retry {
+		timeout = echoRetryTimeout
+	}
+	convictedKey := sc.Link + "|" + sc.Side
+	if x.convicted[convictedKey] >= 3 && (x.lab == nil || x.lab.timeout != echoConvictedTimeout) {
+		// this (link, side) has failed twice in a row three times already: the verdict is in, the remaining
+		// scenarios only add to its count and need not wait long
+		if x.lab != nil {
+			x.lab.close()
+		}
+		timeout = echoConvictedTimeout
+	}
 	oversize := (link.Name == "udp" && sc.Len > udpCapacity) ||
 		(link.Server == "fasthttp" && sc.Side == "request" && sc.Len > 4<<20) // fasthttp.Server's default MaxRequestBodySize
 	if oversize {
 		timeout = 2 * time.Second // nothing can come back: the answer is the client's own timeout
 	}
-	if x.lab == nil || x.lab.srv == nil || oversize {
+	if x.lab == nil || x.lab.srv == nil || oversize || retry {
 		if x.lab == nil {
 			x.lab = &lab{link: link}
 		}
@@ -595,10 +624,29 @@ func (x *executor) echo(sc Scenario, link netlab.Link) {
 	} else {
 		x.res.count("echo_errors")
 		if !oversize {
+			// both peers are the library, the link is loopback and the payload is within the transport's capacity:
+			// "exactly the bytes that were sent" must hold. One more try on a fresh connection (a stalled machine
+			// is not the transport's fault); a second failure is a verdict. Once a (link, side) pair has been
+			// convicted three times in this worker its further failures are reported without the second try.
 			x.res.count("echo_errors_within_capacity")
 			x.res.note(fmt.Sprintf("%s: error within capacity: %v", sc, err))
+			key := sc.Link + "|" + sc.Side
+			if !retry && x.convicted[key] < 3 {
+				x.res.count("echo_retries")
+				x.echoTry(sc, link, true)
+				return
+			}
+			if x.convicted == nil {
+				x.convicted = map[string]int{}
+			}
+			x.convicted[key]++
+			x.res.violate(sc, "not-delivered-within-capacity", fmt.Sprintf("%d-byte %s (pattern %s) between two healthy peers of the library was not delivered: %v (the service saw the request %d time(s))", sc.Len, sc.Side, patNames[sc.Pat], err, len(entries)))
 		}
-		if err := l.open(60 * time.Second); err != nil { // the connection (or, on UDP, the server loop) may be gone
+		reopen := echoTimeout
+		if x.convicted[convictedKey] >= 3 {
+			reopen = echoConvictedTimeout
+		}
+		if err := l.open(reopen); err != nil { // the connection (or, on UDP, the server loop) may be gone
 			x.res.Infra = append(x.res.Infra, "echo lab: "+err.Error())
 		}
 	}
@@ -1198,7 +1246,7 @@ func main() {
 	var notes []string
 	deaths := 0
 	found := 0
-	rounds := netlab.Drive(jobs, shard.Options{JobTimeout: 300 * time.Second}, func(j netlab.Job, raw json.RawMessage) {
+	rounds := netlab.Drive(jobs, shard.Options{JobTimeout: 600 * time.Second}, func(j netlab.Job, raw json.RawMessage) {
 		var r result
 		if err := json.Unmarshal(raw, &r); err != nil {
 			run.Infra("bad worker result: " + err.Error())
@@ -1285,7 +1333,7 @@ func main() {
 	run.Assumption("raw-peer scenarios run the service with Handler.Pool set to an inline pool (requests execute inside the transport's receive loop) so that 'the peer saw the connection close / the sentinel was answered' proves the victim frame has been fully processed; the echo part uses the default goroutine-per-request path")
 	run.Assumption("an empty response produced by an IO plugin is replaced by Service.Handle with the encoding of nil; for response length 0 that substitute is what 'the service produced'")
 	run.Assumption("on stream transports a declared length smaller than what follows is a consistent frame (the rest is the next frame); on UDP a datagram is self-contained, so declared != actual is inconsistent")
-	run.Assumption("an error or a timeout returned to the caller counts as 'nothing delivered'; such outcomes within a transport's capacity are counted (counters.echo_errors_within_capacity, consistent_not_delivered), not reported")
+	run.Assumption("echo part: an error or a time-out (10 s) for a payload within the transport's capacity is tried once more on a fresh connection (45 s); failing twice is reported as not-delivered-within-capacity. Raw-frame part: a consistent frame that is not delivered is counted (consistent_not_delivered), not reported")
 	run.Assumption("UDP payloads above 65,537 bytes are outside the documented capacity of the transport and are not sent; 65,500..65,537 probe the edge")
 	run.Finish()
 }
